@@ -638,3 +638,209 @@ Proof.
   rewrite Hn', (tot2_post n s c i s0 c0 src Hs0 Hs) in Hpot.
   change (0 <=? i) with true in Hpot. change (count_at s c i []) with 0 in Hpot. lia.
 Qed.
+
+(* ---- the oracle clauses ------------------------------------------------------ *)
+
+Lemma all_posts_spec (f : nat -> post -> bool) : forall l k,
+  all_posts f k l = true <-> (forall j x, nth_error l j = Some x -> f (k + j) x = true).
+Proof.
+  induction l as [|y l IH]; intros k; simpl.
+  - split; [intros _ j x H; destruct j; discriminate | reflexivity].
+  - rewrite andb_true_iff, IH. split.
+    + intros [Hy Hl] j x H. destruct j as [|j]; simpl in H.
+      * injection H as <-. rewrite Nat.add_0_r. exact Hy.
+      * rewrite Nat.add_succ_r. exact (Hl j x H).
+    + intros H. split.
+      * rewrite <- (Nat.add_0_r k). apply H. reflexivity.
+      * intros j x Hj. replace (S k + j) with (k + S j) by lia. apply H. exact Hj.
+Qed.
+
+Lemma in_others n s0 s : In s (others n s0) <-> s <= n /\ s <> s0.
+Proof.
+  unfold others, sides_of. rewrite filter_In, in_seq, negb_true_iff, Nat.eqb_neq. lia.
+Qed.
+
+Lemma in_sides n s : In s (sides_of n) <-> s <= n.
+Proof. unfold sides_of. rewrite in_seq. lia. Qed.
+
+(* what each boolean clause says *)
+Lemma ok_exactly_once_spec n posts l :
+  ok_exactly_once n posts l = true <->
+  (forall i s0 c0 src s, nth_error posts i = Some (s0, c0, src) -> s0 <= n ->
+     post_crosses i (s0, c0, src) = true -> s <= n -> s <> s0 -> count_at s c0 i l = 1).
+Proof.
+  unfold ok_exactly_once. rewrite all_posts_spec. split.
+  - intros H i s0 c0 src s Hn Hs0 Hc Hs Hne. specialize (H i _ Hn). rewrite Nat.add_0_l in H. cbv beta iota in H.
+    apply Nat.leb_le in Hs0. rewrite Hs0, Hc in H. cbn [negb orb] in H.
+    rewrite forallb_forall in H. apply Nat.eqb_eq. apply H. apply in_others. auto.
+  - intros H j [[s0 c0] src] Hn. rewrite Nat.add_0_l. cbv beta iota.
+    destruct (s0 <=? n) eqn:E1; cbn [negb orb]; [|reflexivity].
+    destruct (post_crosses j (s0, c0, src)) eqn:E2; cbn [negb orb]; [|reflexivity].
+    apply forallb_forall. intros s Hs. apply in_others in Hs as [Hs Hne]. apply Nat.eqb_eq.
+    apply Nat.leb_le in E1. exact (H j s0 c0 src s Hn E1 E2 Hs Hne).
+Qed.
+
+Lemma ok_not_back_spec n posts l :
+  ok_not_back n posts l = true <->
+  (forall i s0 c0 src, nth_error posts i = Some (s0, c0, src) -> s0 <= n -> count_at s0 c0 i l = 1).
+Proof.
+  unfold ok_not_back. rewrite all_posts_spec. split.
+  - intros H i s0 c0 src Hn Hs0. specialize (H i _ Hn). rewrite Nat.add_0_l in H. cbv beta iota in H.
+    apply Nat.leb_le in Hs0. rewrite Hs0 in H. cbn [negb orb] in H. apply Nat.eqb_eq. exact H.
+  - intros H j [[s0 c0] src] Hn. rewrite Nat.add_0_l. cbv beta iota.
+    destruct (s0 <=? n) eqn:E1; cbn [negb orb]; [|reflexivity].
+    apply Nat.eqb_eq. apply Nat.leb_le in E1. exact (H j s0 c0 src Hn E1).
+Qed.
+
+Lemma ok_stays_local_spec n posts l :
+  ok_stays_local n posts l = true <->
+  (forall i s0 c0 src s, nth_error posts i = Some (s0, c0, src) -> s0 <= n ->
+     post_crosses i (s0, c0, src) = false -> s <= n -> s <> s0 -> count_at s c0 i l = 0).
+Proof.
+  unfold ok_stays_local. rewrite all_posts_spec. split.
+  - intros H i s0 c0 src s Hn Hs0 Hc Hs Hne. specialize (H i _ Hn). rewrite Nat.add_0_l in H. cbv beta iota in H.
+    apply Nat.leb_le in Hs0. rewrite Hs0, Hc in H. cbn [negb orb] in H.
+    rewrite forallb_forall in H. apply Nat.eqb_eq. apply H. apply in_others. auto.
+  - intros H j [[s0 c0] src] Hn. rewrite Nat.add_0_l. cbv beta iota.
+    destruct (s0 <=? n) eqn:E1; cbn [negb orb]; [|reflexivity].
+    destruct (post_crosses j (s0, c0, src)) eqn:E2; cbn [negb orb]; [reflexivity|].
+    apply forallb_forall. intros s Hs. apply in_others in Hs as [Hs Hne]. apply Nat.eqb_eq.
+    apply Nat.leb_le in E1. exact (H j s0 c0 src s Hn E1 E2 Hs Hne).
+Qed.
+
+Lemma ok_no_stray_spec n posts l :
+  ok_no_stray n posts l = true <->
+  (forall i s0 c0 src s, nth_error posts i = Some (s0, c0, src) -> s0 <= n -> s <= n ->
+     count_at s (other_chan c0) i l = 0).
+Proof.
+  unfold ok_no_stray. rewrite all_posts_spec. split.
+  - intros H i s0 c0 src s Hn Hs0 Hs. specialize (H i _ Hn). rewrite Nat.add_0_l in H. cbv beta iota in H.
+    apply Nat.leb_le in Hs0. rewrite Hs0 in H. cbn [negb orb] in H.
+    rewrite forallb_forall in H. apply Nat.eqb_eq. apply H. apply in_sides. exact Hs.
+  - intros H j [[s0 c0] src] Hn. rewrite Nat.add_0_l. cbv beta iota.
+    destruct (s0 <=? n) eqn:E1; cbn [negb orb]; [|reflexivity].
+    apply forallb_forall. intros s Hs. apply in_sides in Hs. apply Nat.eqb_eq.
+    apply Nat.leb_le in E1. exact (H j s0 c0 src s Hn E1 Hs).
+Qed.
+
+Lemma expected_own i s0 c0 src : expected i (s0, c0, src) s0 c0 = 1.
+Proof. unfold expected. rewrite chan_eqb_refl, Nat.eqb_refl. reflexivity. Qed.
+
+Lemma expected_other i s0 c0 src s : s <> s0 ->
+  expected i (s0, c0, src) s c0 = if post_crosses i (s0, c0, src) then 1 else 0.
+Proof.
+  intros Hne. unfold expected. rewrite chan_eqb_refl. apply Nat.eqb_neq in Hne. rewrite Hne. reflexivity.
+Qed.
+
+Lemma expected_stray i s0 c0 src s : expected i (s0, c0, src) s (other_chan c0) = 0.
+Proof. unfold expected. destruct c0; reflexivity. Qed.
+
+(* the model satisfies every clause, for every network size, batch of posts
+   and transport schedule *)
+Lemma model_exactly_once n posts sched : ok_exactly_once n posts (log (network n posts sched)) = true.
+Proof.
+  apply ok_exactly_once_spec. intros i s0 c0 src s Hn Hs0 Hc Hs Hne.
+  rewrite (network_counts n posts sched i s0 c0 src s c0 Hn Hs0 Hs), (expected_other _ _ _ _ _ Hne), Hc.
+  reflexivity.
+Qed.
+
+Lemma model_not_back n posts sched : ok_not_back n posts (log (network n posts sched)) = true.
+Proof.
+  apply ok_not_back_spec. intros i s0 c0 src Hn Hs0.
+  rewrite (network_counts n posts sched i s0 c0 src s0 c0 Hn Hs0 Hs0). apply expected_own.
+Qed.
+
+Lemma model_stays_local n posts sched : ok_stays_local n posts (log (network n posts sched)) = true.
+Proof.
+  apply ok_stays_local_spec. intros i s0 c0 src s Hn Hs0 Hc Hs Hne.
+  rewrite (network_counts n posts sched i s0 c0 src s c0 Hn Hs0 Hs), (expected_other _ _ _ _ _ Hne), Hc.
+  reflexivity.
+Qed.
+
+Lemma model_no_stray n posts sched : ok_no_stray n posts (log (network n posts sched)) = true.
+Proof.
+  apply ok_no_stray_spec. intros i s0 c0 src s Hn Hs0 Hs.
+  rewrite (network_counts n posts sched i s0 c0 src s (other_chan c0) Hn Hs0 Hs). apply expected_stray.
+Qed.
+
+Lemma model_no_circulation n posts sched :
+  ok_no_circulation n (length posts) (npub (network n posts sched)) (quiescent (network n posts sched)) = true.
+Proof.
+  unfold ok_no_circulation, quiescent. rewrite network_quiescent. simpl.
+  apply Nat.leb_le. apply network_npub.
+Qed.
+
+(* ---- who forwards by default -------------------------------------------------- *)
+
+Lemma advance_crosses i s0 e :
+  post_crosses i (s0, State, Advance e)
+  = match e with Some b => b | None => negb (Nat.eqb s0 0) end.
+Proof. unfold post_crosses, crosses, source_msg, advance_default; simpl. destruct e as [[]|]; simpl; try reflexivity. destruct (Nat.eqb s0 0); reflexivity. Qed.
+
+Lemma typed_crosses i s0 c t e :
+  post_crosses i (s0, c, Typed t e) = match e with Some b => b | None => mtype_fwd t end.
+Proof. unfold post_crosses, crosses, source_msg; simpl. destruct e as [[]|]; simpl; try reflexivity. destruct (mtype_fwd t); reflexivity. Qed.
+
+Lemma raw_crosses i s0 c o f :
+  post_crosses i (s0, c, Raw o f)
+  = truthy f && match o with None => true | Some o' => Nat.eqb o' s0 end.
+Proof. reflexivity. Qed.
+
+(* ---- readable corollaries ------------------------------------------------------ *)
+
+Lemma forwarded_exactly_once n posts sched i s0 c0 src :
+  nth_error posts i = Some (s0, c0, src) -> s0 <= n ->
+  post_crosses i (s0, c0, src) = true ->
+  forall s, s <= n -> count_at s c0 i (log (network n posts sched)) = 1.
+Proof.
+  intros Hn Hs0 Hc s Hs. rewrite (network_counts n posts sched i s0 c0 src s c0 Hn Hs0 Hs).
+  unfold expected. rewrite chan_eqb_refl, Hc. destruct (Nat.eqb s s0); reflexivity.
+Qed.
+
+Lemma unforwarded_stays_local n posts sched i s0 c0 src :
+  nth_error posts i = Some (s0, c0, src) -> s0 <= n ->
+  post_crosses i (s0, c0, src) = false ->
+  forall s, s <= n -> count_at s c0 i (log (network n posts sched)) = if Nat.eqb s s0 then 1 else 0.
+Proof.
+  intros Hn Hs0 Hc s Hs. rewrite (network_counts n posts sched i s0 c0 src s c0 Hn Hs0 Hs).
+  unfold expected. rewrite chan_eqb_refl, Hc. reflexivity.
+Qed.
+
+Lemma once_at_origin n posts sched i s0 c0 src :
+  nth_error posts i = Some (s0, c0, src) -> s0 <= n ->
+  count_at s0 c0 i (log (network n posts sched)) = 1.
+Proof.
+  intros Hn Hs0. rewrite (network_counts n posts sched i s0 c0 src s0 c0 Hn Hs0 Hs0). apply expected_own.
+Qed.
+
+Lemma no_circulation n posts sched :
+  pending (network n posts sched) = [] /\ npub (network n posts sched) <= length posts * (n + 2).
+Proof. split; [apply network_quiescent | apply network_npub]. Qed.
+
+Lemma model_all_clauses n posts sched :
+  let st := network n posts sched in
+  ok_exactly_once n posts (log st) = true /\ ok_not_back n posts (log st) = true /\
+  ok_stays_local n posts (log st) = true /\ ok_no_stray n posts (log st) = true /\
+  ok_no_circulation n (length posts) (npub st) (quiescent st) = true.
+Proof.
+  repeat split; [apply model_exactly_once | apply model_not_back | apply model_stays_local
+                 | apply model_no_stray | apply model_no_circulation].
+Qed.
+
+(* agent-side state advances reach the client and every other pilot exactly
+   once; client-side ones stay on the client *)
+Lemma agent_advance_forwarded n posts sched i s0 :
+  nth_error posts i = Some (s0, State, Advance None) -> 1 <= s0 <= n ->
+  forall s, s <= n -> count_at s State i (log (network n posts sched)) = 1.
+Proof.
+  intros Hn [H1 Hs0]. apply (forwarded_exactly_once n posts sched i s0 State (Advance None) Hn Hs0).
+  rewrite advance_crosses. destruct s0; [lia | reflexivity].
+Qed.
+
+Lemma client_advance_local n posts sched i :
+  nth_error posts i = Some (0, State, Advance None) ->
+  forall s, s <= n -> count_at s State i (log (network n posts sched)) = if Nat.eqb s 0 then 1 else 0.
+Proof.
+  intros Hn. apply (unforwarded_stays_local n posts sched i 0 State (Advance None) Hn (Nat.le_0_l n)).
+  rewrite advance_crosses. reflexivity.
+Qed.
